@@ -124,6 +124,65 @@ pub mod site {
     pub const SHM_NEXT_ID: u32 = 38;
 }
 
+/// The maximum number of channel IDs per side in a [`ShmSnapshot`].
+pub const SNAPSHOT_MAX_CHANS: usize = 16;
+
+/// One of the two channel lists of the shared memory.
+#[derive(Clone, Copy, Debug, Default, Eq, PartialEq)]
+pub struct ShmSideSnapshot {
+    /// Address of the list's mutex (`a` of [`site::MUTEX_LOCK`]).
+    pub lock_addr: usize,
+    /// The mutex's key: 0 = unlocked.
+    pub lock: u32,
+    /// Address of the list's generation counter (`a` of
+    /// [`site::SHM_GEN_BUMP`] and [`site::SHM_GEN_LOAD`]).
+    pub generation_addr: usize,
+    pub generation: u32,
+    pub len: u64,
+    pub cap: u64,
+    /// The IDs of the first `ids_len` channels, in list order.
+    pub ids: [u64; SNAPSHOT_MAX_CHANS],
+    pub ids_len: usize,
+}
+
+/// An unsynchronized snapshot of the shared memory.
+#[derive(Clone, Copy, Debug, Default, Eq, PartialEq)]
+pub struct ShmSnapshot {
+    /// Does `read_off` refer to side A?
+    pub read_is_a: bool,
+    /// Does `write_off` refer to side A?
+    pub write_is_a: bool,
+    pub read_off_valid: bool,
+    pub write_off_valid: bool,
+    pub next_chan_id: u64,
+    pub side_a: ShmSideSnapshot,
+    pub side_b: ShmSideSnapshot,
+}
+
+/// Issues a yield point when dropped.
+#[derive(Debug)]
+pub struct PointOnDrop {
+    site: u32,
+    a: usize,
+}
+
+impl Drop for PointOnDrop {
+    fn drop(&mut self) {
+        point(self.site, self.a, 0);
+    }
+}
+
+/// Marks the acquisition of `memory::State`'s mutex ([`site::MEM_LOCK`], `a` = the mutex);
+/// the returned value issues [`site::MEM_UNLOCKED`] when it is dropped, which is after the
+/// mutex guard that is created after it has been dropped.
+pub fn mem_lock(a: usize) -> PointOnDrop {
+    point(site::MEM_LOCK, a, 0);
+    PointOnDrop {
+        site: site::MEM_UNLOCKED,
+        a,
+    }
+}
+
 /// Gives access to the crate private shared memory mutex.
 #[cfg(any(test, feature = "memory", feature = "sdlib", feature = "posix"))]
 #[derive(Default, Debug)]
